@@ -86,18 +86,17 @@ impl<'a> AddSpecImpl<V> for &'a V {
     open spec fn add_spec(self, rhs: V) -> V { arbitrary() }
 }
 impl<'a> core::ops::Add<V> for &'a V { type Output = V; #[verifier::external_body] fn add(self, rhs: V) -> (r: V) ensures r@ == vadd(self@, rhs@) { unimplemented!() } }
-impl<'a, 'b> AddSpecImpl<&'b V> for &'a V {
+impl AddSpecImpl<&V> for &V {
     open spec fn obeys_add_spec() -> bool { false }
-    open spec fn add_req(self, rhs: &'b V) -> bool { self@.len() == rhs@.len() }
-    open spec fn add_spec(self, rhs: &'b V) -> V { arbitrary() }
+    open spec fn add_req(self, rhs: &V) -> bool { self@.len() == rhs@.len() }
+    open spec fn add_spec(self, rhs: &V) -> V { arbitrary() }
 }
-impl<'a, 'b> core::ops::Add<&'b V> for &'a V { type Output = V; #[verifier::external_body] fn add(self, rhs: &'b V) -> (r: V) ensures r@ == vadd(self@, rhs@) { unimplemented!() } }
-impl<'a, 'b> SubSpecImpl<&'b V> for &'a V {
-    open spec fn obeys_sub_spec() -> bool { false }
-    open spec fn sub_req(self, rhs: &'b V) -> bool { self@.len() == rhs@.len() }
-    open spec fn sub_spec(self, rhs: &'b V) -> V { arbitrary() }
+impl core::ops::Add<&V> for &V { type Output = V; #[verifier::external_body] fn add(self, rhs: &V) -> (r: V) ensures r@ == vadd(self@, rhs@) { unimplemented!() } }
+impl V {
+    // `&a - &b` (rule R29: this Verus build fails internally on a user Sub<&V> for &V instance, so the operator is spelled as a call)
+    #[verifier::external_body]
+    pub fn vx_sub_ref(&self, rhs: &V) -> (r: V) requires self@.len() == rhs@.len() ensures r@ == vsub(self@, rhs@) { unimplemented!() }
 }
-impl<'a, 'b> core::ops::Sub<&'b V> for &'a V { type Output = V; #[verifier::external_body] fn sub(self, rhs: &'b V) -> (r: V) ensures r@ == vsub(self@, rhs@) { unimplemented!() } }
 impl<'a> MulSpecImpl<R> for &'a V {
     open spec fn obeys_mul_spec() -> bool { false }
     open spec fn mul_req(self, rhs: R) -> bool { true }
